@@ -489,7 +489,7 @@ BINDERS = ("Lambda", "ListComp", "SetComp", "DictComp", "GeneratorExp",
            "NamedExpr")
 
 
-def _binders(repo, rep):
+def _binders(repo, rep, rule="R04.6", handlers=True):
     ci = repo.cls("chameleon.astutil.NameLookupRewriteVisitor")
     site = ci.qualname
     for b in BINDERS:
@@ -498,7 +498,9 @@ def _binders(repo, rep):
             alias = ci.attrs["visit_" + b]
             if isinstance(alias, ast.Name):
                 m = ci.methods.get(alias.id)
-        rep.check(m is not None, "R04.6", site,
+        if m is None and not handlers:
+            continue
+        rep.check(m is not None, rule, site,
                   "the name rewriter has a scope-aware handler for %s "
                   "(a name bound inside an expression must not be rewritten "
                   "to, or stored in, the template context)" % b,
@@ -508,7 +510,7 @@ def _binders(repo, rep):
         text = L.text(m.node)
         pushes = [n for n in ast.walk(m.node) if isinstance(n, ast.Call)
                   and src(n.func) == "self.scopes.append"]
-        rep.check(bool(pushes), "R04.6", m.qualname,
+        rep.check(bool(pushes), rule, m.qualname,
                   "visit_%s opens a scope" % b, construct="no-scope:" + b,
                   where=L.where(m))
         for p in pushes:
@@ -524,13 +526,13 @@ def _binders(repo, rep):
                 "set(self.scopes[-1])|set()") or (
                 inherits and (arg.startswith("set(") or
                               arg.endswith(".copy()") or " | " in arg))
-            rep.check(not inherits or fresh, "R04.6", m.qualname,
+            rep.check(not inherits or fresh, rule, m.qualname,
                       "the scope opened by visit_%s is a *copy* of the "
                       "enclosing one (names bound inside must not leak into "
                       "the enclosing scope)" % b,
                       construct="shared-scope:" + b, where=L.where(m),
                       detail="self.scopes.append(%s)" % arg)
-            rep.check(inherits, "R04.6", m.qualname,
+            rep.check(inherits, rule, m.qualname,
                       "the scope opened by visit_%s inherits the enclosing "
                       "scope (nested binders see outer parameters)" % b,
                       construct="empty-scope:" + b, where=L.where(m),
@@ -539,6 +541,6 @@ def _binders(repo, rep):
                 and src(n.func) == "self.scopes.pop"]
         fin = [n for n in ast.walk(m.node) if isinstance(n, ast.Try)
                and n.finalbody]
-        rep.check(bool(pops) and bool(fin), "R04.6", m.qualname,
+        rep.check(bool(pops) and bool(fin), rule, m.qualname,
                   "the scope is closed on every exit (try/finally)",
                   construct="scope-leak:" + b, where=L.where(m))
